@@ -108,14 +108,15 @@ func (s *secureSession) Decrypt(r io.Reader) (io.Reader, error) {
 			return nil, err
 		}
 
+		// The end of r behind the length is not the end of the data, it is in the middle of a packet
 		var b = make([]byte, length)
 		if err := binary.Read(r, binary.LittleEndian, &b); err != nil {
-			return nil, err
+			return nil, unexpectedEOF(err)
 		}
 
 		var mac [16]byte
 		if err := binary.Read(r, binary.LittleEndian, &mac); err != nil {
-			return nil, err
+			return nil, unexpectedEOF(err)
 		}
 
 		var nonce [8]byte
@@ -144,4 +145,13 @@ func (s *secureSession) Decrypt(r io.Reader) (io.Reader, error) {
 	s.decryptCount = count
 
 	return &buf, nil
+}
+
+// unexpectedEOF returns io.ErrUnexpectedEOF for io.EOF, and err otherwise.
+func unexpectedEOF(err error) error {
+	if err == io.EOF {
+		return io.ErrUnexpectedEOF
+	}
+
+	return err
 }
